@@ -219,4 +219,162 @@ theorem lexedKids_no_bad (d : Nat) : ∀ (ks : List Tree), (lexedKids d ks).any 
     simp [lexedKids, isBad, h1, h2]
 end
 
+/-! ### layout whitespace is not significant -/
+
+mutual
+/-- the element with empty texts dropped: the normal form both sides are compared in -/
+def sigOf : Tree → List XTok
+  | .leaf n as t => .start n as :: ((if t = [] then [] else [.text (substitute t)]) ++ [.stop n])
+  | .node n as kids => .start n as :: (sigOfL kids ++ [.stop n])
+def sigOfL : List Tree → List XTok
+  | [] => []
+  | t :: ts => sigOf t ++ sigOfL ts
+end
+
+theorem nlTabs_space (d : Nat) : (nlTabs d).all isSpace = true := by
+  simp [nlTabs, tabs, isSpace]
+
+theorem substitute_nil_iff (t : List Char) : substitute t = [] ↔ t = [] := by
+  cases t <;> simp [substitute]
+
+theorem significant_stop (n : String) (r : List XTok) : significant (.stop n :: r) = .stop n :: significant r := by
+  simp [significant]
+
+theorem significant_ws (ws : List Char) (h : ws.all isSpace = true) (r : List XTok) :
+    significant (.text ws :: r) = significant r := by
+  simp [significant, h]
+
+theorem lexedOf_head (d : Nat) (t : Tree) : ∃ n as r, lexedOf d t = .start n as :: r ∧ (∀ m, r.head? ≠ some (.stop m) ∨ True) := by
+  cases t with
+  | leaf n as txt => exact ⟨n, as, _, rfl, fun _ => Or.inr trivial⟩
+  | node n as ks => cases ks <;> exact ⟨n, as, _, rfl, fun _ => Or.inr trivial⟩
+
+/-- `start` followed by something that is not (`text`, `stop`) -/
+theorem significant_start_start (n : String) (as : List (String × List Char)) (m : String)
+    (bs : List (String × List Char)) (r : List XTok) :
+    significant (.start n as :: .start m bs :: r) = .start n as :: significant (.start m bs :: r) := by
+  simp [significant]
+
+theorem significant_start_stop (n : String) (as : List (String × List Char)) (m : String) (r : List XTok) :
+    significant (.start n as :: .stop m :: r) = .start n as :: .stop m :: significant r := by
+  simp [significant]
+
+theorem significant_start_text_start (n : String) (as : List (String × List Char)) (ws : List Char)
+    (h : ws.all isSpace = true) (m : String) (bs : List (String × List Char)) (r : List XTok) :
+    significant (.start n as :: .text ws :: .start m bs :: r) = .start n as :: significant (.start m bs :: r) := by
+  simp [significant, h]
+
+mutual
+theorem sig_lexed (d : Nat) : ∀ (t : Tree) (rest : List XTok),
+    significant (lexedOf d t ++ rest) = sigOf t ++ significant rest
+  | .leaf n as txt, rest => by
+    by_cases ht : txt = []
+    · simp [lexedOf, sigOf, ht, significant_start_stop]
+    · have hs : substitute txt ≠ [] := fun h => ht ((substitute_nil_iff txt).mp h)
+      simp [lexedOf, sigOf, ht, significant, hs]
+  | .node n as [], rest => by
+    simp [lexedOf, sigOf, sigOfL, significant_start_stop]
+  | .node n as (k :: ks), rest => by
+    have hk := sig_lexedKids (d + 1) (k :: ks) (.text (nlTabs d) :: .stop n :: rest) (by simp)
+    obtain ⟨m, bs, r, hr, _⟩ := lexedOf_head (d + 1) k
+    simp only [lexedOf, lexedKids, List.cons_append, List.append_assoc, List.nil_append, hr] at hk ⊢
+    rw [significant_start_text_start n as _ (nlTabs_space (d + 1))]
+    rw [significant_ws _ (nlTabs_space (d + 1))] at hk
+    rw [hk, significant_ws _ (nlTabs_space d), significant_stop]
+    simp [sigOf, List.append_assoc]
+theorem sig_lexedKids (d : Nat) : ∀ (ks : List Tree) (rest : List XTok), ks ≠ [] ∨ True →
+    significant (lexedKids d ks ++ rest) = sigOfL ks ++ significant rest
+  | [], rest, _ => by simp [lexedKids, sigOfL]
+  | k :: ks, rest, _ => by
+    have h1 := sig_lexed d k (lexedKids d ks ++ rest)
+    have h2 := sig_lexedKids d ks rest (Or.inr trivial)
+    simp only [lexedKids, List.cons_append, List.append_assoc, sigOfL]
+    rw [significant_ws _ (nlTabs_space d), h1, h2]
+end
+
+theorem toksOf_head (t : Tree) : ∃ n as r, toksOf (substTree t) = .start n as :: r := by
+  cases t with
+  | leaf n as txt => exact ⟨n, as, _, rfl⟩
+  | node n as ks => exact ⟨n, as, _, rfl⟩
+
+mutual
+theorem sig_toks : ∀ (t : Tree) (rest : List XTok),
+    significant (toksOf (substTree t) ++ rest) = sigOf t ++ significant rest
+  | .leaf n as txt, rest => by
+    by_cases ht : txt = []
+    · simp [toksOf, substTree, sigOf, ht, significant, substitute]
+    · have hs : substitute txt ≠ [] := fun h => ht ((substitute_nil_iff txt).mp h)
+      simp [toksOf, substTree, sigOf, ht, significant, hs]
+  | .node n as [], rest => by
+    simp [toksOf, toksOfL, substTree, substTreeL, sigOf, sigOfL, significant_start_stop]
+  | .node n as (k :: ks), rest => by
+    have hk := sig_toksL (k :: ks) (.stop n :: rest)
+    obtain ⟨m, bs, r, hr⟩ := toksOf_head k
+    simp only [toksOf, toksOfL, substTree, substTreeL, List.cons_append, List.append_assoc, List.nil_append, hr] at hk ⊢
+    rw [significant_start_start, hk, significant_stop]
+    simp [sigOf, List.append_assoc]
+theorem sig_toksL : ∀ (ks : List Tree) (rest : List XTok),
+    significant (toksOfL (substTreeL ks) ++ rest) = sigOfL ks ++ significant rest
+  | [], rest => by simp [toksOfL, substTreeL, sigOfL]
+  | k :: ks, rest => by
+    have h1 := sig_toks k (toksOfL (substTreeL ks) ++ rest)
+    have h2 := sig_toksL ks rest
+    simp only [toksOfL, substTreeL, List.append_assoc, sigOfL]
+    rw [h1, h2]
+end
+
+/-- **reading the printed tree back**: for every element tree with schema names and plain
+    attribute values, the strict tokenizer accepts what the printer wrote (no syntax error, tags
+    properly nested) and, apart from layout whitespace between elements, returns exactly the
+    tree's tokens with every text as a parser must hand it back -/
+theorem printed_tree_reads_back (t : Tree) (hok : treeOk t = true) (f : Nat) :
+    let toks := nest [] false (lexBody (f + 1 + (lexedOf 0 t).length) (renderLTFrom {} (toksOf t)))
+    toks.any isBad = false ∧ significant toks = significant (toksOf (substTree t)) := by
+  have hr := render_root t []
+  simp only [List.append_nil, renderLTFrom] at hr
+  have hl := lex_tree 0 t hok [] (f + 1)
+  simp only [List.append_nil] at hl
+  have hb : lexBody (f + 1) [] = [] := by simp [lexBody]
+  simp only [hr, hl, hb, List.append_nil, nest_root]
+  refine ⟨lexed_no_bad 0 t, ?_⟩
+  have h1 := sig_lexed 0 t []
+  have h2 := sig_toks t []
+  simp only [List.append_nil] at h1 h2
+  rw [h1, h2]
+
+/-! ### schema names have no '&' -/
+
+theorem nameOk_of_xmlNameOk (n : String) (h : xmlNameOk n = true) : nameOk n = true := by
+  unfold xmlNameOk at h
+  cases hl : n.toList with
+  | nil => simp [hl] at h
+  | cons c cs =>
+    simp only [hl, Bool.and_eq_true, List.all_eq_true, Bool.or_eq_true, decide_eq_true_eq] at h
+    simp only [nameOk, hl, List.all_eq_true, bne_iff_ne, ne_eq]
+    intro x hx e
+    subst e
+    have := (h.2 _ hx).1
+    revert this; decide
+
+theorem attrsOk_tok (as : List (String × List Char)) (h : as.all attrOk = true) :
+    as.all (fun a => nameOk a.1) = true := by
+  simp only [List.all_eq_true, attrOk, Bool.and_eq_true] at h ⊢
+  exact fun a ha => nameOk_of_xmlNameOk a.1 (h a ha).1
+
+mutual
+theorem tokOk_of_treeOk : ∀ (t : Tree), treeOk t = true → (toksOf t).all tokOk = true
+  | .leaf n as txt, h => by
+    simp only [treeOk, Bool.and_eq_true, Bool.not_eq_true'] at h
+    simp [toksOf, tokOk, nameOk_of_xmlNameOk n h.1.1, attrsOk_tok as h.1.2]
+  | .node n as kids, h => by
+    simp only [treeOk, Bool.and_eq_true, Bool.not_eq_true'] at h
+    have := tokOkL_of_treeOkL kids h.2
+    simp [toksOf, tokOk, nameOk_of_xmlNameOk n h.1.1.1, attrsOk_tok as h.1.1.2, List.all_append, this]
+theorem tokOkL_of_treeOkL : ∀ (ts : List Tree), treeOkL ts = true → (toksOfL ts).all tokOk = true
+  | [], _ => by simp [toksOfL]
+  | t :: ts, h => by
+    simp only [treeOkL, Bool.and_eq_true] at h
+    simp [toksOfL, List.all_append, tokOk_of_treeOk t h.1, tokOkL_of_treeOkL ts h.2]
+end
+
 end TrackVerif.LT.Xml
